@@ -2,7 +2,7 @@
    Statements only; proofs are in Proofs/C01_proofs.v and Proofs/C01_order.v.
    F is any field with an involutive automorphism conj (real data: conj = id). *)
 From Coq Require Import String ZArith List Bool Reals.
-From XV Require Import Base.Scalar Base.Sum Base.Mat Base.RInst Model.DecompLib Model.Eof Gen.T3 Gen.T3b Gen.T5eof Proofs.C01_proofs Proofs.C01_order Proofs.C01_tie.
+From XV Require Import Base.Scalar Base.Sum Base.Mat Base.RInst Model.DecompLib Model.Eof Gen.T3 Gen.T3b Gen.T5eof Proofs.C01_proofs Proofs.C01_order Proofs.C01_ey Proofs.C01_tie.
 Import ListNotations.
 
 (* components are orthonormal: V_k^H V_k = I *)
@@ -102,15 +102,17 @@ Theorem C01_eckart_young_partial : forall (n p r k : nat) (X U Vt : list (list R
 Proof. exact eckart_young_subsets. Qed.
 Print Assumptions C01_eckart_young_partial.
 
-(* full statement of the optimality clause (any rank-k competitor); NOT proved here — the
-   proved part is C01_recon_error; see DESIGN.md section 4/C01 *)
-Definition C01_eckart_young_full : Prop :=
-  forall (n p r k : nat) (X U Vt : list (list R)) (s : list R) (A B : list (list R)),
+(* Eckart-Young in full (Frobenius norm, real instance): the reconstruction from the first k modes is at least as
+   close to X as ANY product of an n x k and a k x p matrix, i.e. any matrix of rank at most k.  Proof: Gram-Schmidt
+   on the rows of B, the projection bound row by row, Bessel's inequality in both bases, and a weighted-sum
+   inequality for the descending squared singular values (Proofs/C01_ey.v). *)
+Theorem C01_eckart_young_full : forall (n p r k : nat) (X U Vt : list (list R)) (s : list R) (A B : list (list R)),
   svd_ok OR n p r X (U, s, Vt) -> desc_nonneg r s -> (k <= r)%nat ->
-  wf OR n k A -> wf OR k p B ->
   let out := eof_fit OR n p r k X (U, s, Vt) in
   (frob2 OR n p (msub OR n p X (eof_inverse OR n p k out (e_scores out))) <=
    frob2 OR n p (msub OR n p X (mmul OR n k p A B)))%R.
+Proof. exact eckart_young_full. Qed.
+Print Assumptions C01_eckart_young_full.
 
 (* the model the theorems are about uses the constants and formulas regenerated from the source *)
 Theorem C01_model_matches_source :
